@@ -338,6 +338,9 @@ pub fn c19() -> Outcome {
         ("entry count is not a number", good.replacen("\n4\n1 1 1 2", "\nfour\n1 1 1 2", 1)),
         ("malformed matrix entry", good.replacen("\n2 3 3 -4\n", "\n2 3 x -4\n", 1)),
         ("malformed number", good.replacen("\n1.5 # default b0", "\n1.5.5 # default b0", 1)),
+        // a malformed row that is NOT the last row of its multi-row section (the reader must report the row itself, not where the section ends)
+        ("malformed value in the middle of the Q0 section", good.replacen("\n2 1 3\n", "\n2 1 3.x\n", 1)),
+        ("malformed index in the first row of the Q0 section", good.replacen("\n1 1 4\n", "\none 1 4\n", 1)),
         ("premature end of file", good[..good.len() / 2].to_string()),
         ("empty file", String::new()),
     ];
